@@ -188,6 +188,16 @@ fn check_prog__(p: &Prog, seed: u64, tier: Tier, st: &mut Stats, dual_normals: b
                     m[(r, c)] *= view_scale;
                 }
             }
+            // the longer sides of a non-cubic grid reach beyond +-1 in world
+            // coordinates: the perspective terms are scaled down so that the
+            // homogeneous weight stays well away from zero over the whole
+            // grid, beyond-the-top slab included (found by the thorough
+            // tier: a 52x8x53 grid, weight nearly 0 at one end, normals of
+            // 1e6 compared at 1e-3)
+            let extent = 2.0 * w.max(h).max(d) as f32 / w.min(h).min(d) as f32 + 1.0;
+            for c in 0..3 {
+                m[(3, c)] /= extent;
+            }
             m
         },
         jit: rng.chance(0.5),
@@ -349,6 +359,10 @@ fn check_with_setup(p: &Prog, su: &Setup, rng: &mut Rng, st: &mut Stats, dual_no
                     D { v: v as f64, d: dd }
                 };
                 let perspective = m[(3, 0)] != 0.0 || m[(3, 1)] != 0.0 || m[(3, 2)] != 0.0;
+                // near the plane where the homogeneous weight vanishes the
+                // position and its derivatives are ill-conditioned (1/w^2)
+                let w_terms = (0..3).map(|c| (m[(3, c)] as f64 * pv[c]).abs()).sum::<f64>() + (m[(3, 3)] as f64).abs();
+                let weight_near_zero = w.abs() * 20.0 < w_terms;
                 let inputs: HashMap<Var, D> = [(Var::X, mk(q.x, 0)), (Var::Y, mk(q.y, 1)), (Var::Z, mk(q.z, 2))].into_iter().collect();
                 let (mut g, mut skip) = dual::eval_graph_dual(&b.ctx, &order, &inputs)[&root];
                 // magnitudes of the chain-rule terms (perspective reference)
@@ -413,7 +427,9 @@ fn check_with_setup(p: &Prog, su: &Setup, rng: &mut Rng, st: &mut Stats, dual_no
                         None => skip = true,
                     }
                 }
-                if skip {
+                if weight_near_zero {
+                    st.inc("normals_skipped_weight_near_zero");
+                } else if skip {
                     st.inc("normals_skipped_locus");
                 } else {
                     st.inc("normals_judged");
